@@ -1,2 +1,419 @@
-//! E4: process-boundary exploration (CLI, Python) and the oracle line protocol.
-pub fn oracle_loop() -> i32 { 0 }
+//! E4: process-boundary exploration. The real `jsonlogic` binary and the real Python package,
+//! both built from the working tree with the hook feature off, are driven over the full product
+//! (rule text x data text x delivery form) resp. (object x entry point x optional-argument
+//! combination); the oracle is the library in-process (the same tree, so any disagreement is
+//! introduced by the wrapper).
+
+use crate::ctx::Ctx;
+use crate::exec::{self, Outcome};
+use serde_json::{json, Value};
+use std::io::{BufRead, Write};
+use std::path::PathBuf;
+use std::process::{Command, Stdio};
+
+pub fn cli_bin(kind: &str) -> PathBuf {
+    PathBuf::from(std::env::var("JLMC_CLI_TARGET").unwrap_or_else(|_| "/verif/.target/cli".into())).join(kind).join("jsonlogic")
+}
+pub fn pypkg(kind: &str) -> PathBuf {
+    PathBuf::from(std::env::var("JLMC_PYPKG").unwrap_or_else(|_| "/verif/.build/pypkg".into())).join(kind)
+}
+
+#[derive(Debug, Clone)]
+pub struct CliObs {
+    pub code: Option<i32>,
+    pub signal: Option<i32>,
+    pub stdout: String,
+    pub stderr: String,
+}
+
+pub fn run_cli(kind: &str, args: &[String], stdin: Option<&str>) -> CliObs {
+    use std::os::unix::process::ExitStatusExt;
+    let mut c = Command::new(cli_bin(kind));
+    c.args(args).env_remove("RUST_BACKTRACE").stdout(Stdio::piped()).stderr(Stdio::piped());
+    c.stdin(if stdin.is_some() { Stdio::piped() } else { Stdio::null() });
+    let mut child = c.spawn().expect("cannot start the jsonlogic binary");
+    if let Some(text) = stdin {
+        let mut si = child.stdin.take().unwrap();
+        let _ = si.write_all(text.as_bytes());
+        drop(si);
+    }
+    let out = child.wait_with_output().expect("wait");
+    CliObs {
+        code: out.status.code(),
+        signal: out.status.signal(),
+        stdout: String::from_utf8_lossy(&out.stdout).into_owned(),
+        stderr: String::from_utf8_lossy(&out.stderr).into_owned(),
+    }
+}
+
+/// What the library itself does with (rule text, data text): Some((stdout, success)).
+pub struct LibExpect {
+    pub stdout: String,
+    pub success: bool,
+    pub why: String,
+}
+
+pub fn lib_expect(rule_text: &str, data_text: &str) -> LibExpect {
+    let rule: Value = match serde_json::from_str(rule_text) {
+        Ok(v) => v,
+        Err(_) => return LibExpect { stdout: String::new(), success: false, why: "rule text is not JSON".into() },
+    };
+    let data: Value = match serde_json::from_str(data_text) {
+        Ok(v) => v,
+        Err(_) => return LibExpect { stdout: String::new(), success: false, why: "data text is not JSON".into() },
+    };
+    let o = exec::apply(&rule, &data);
+    let mut out = String::new();
+    for l in &o.log {
+        out.push_str(l);
+        out.push('\n');
+    }
+    match o.out {
+        Outcome::Ok(v) => {
+            out.push_str(&v.to_string());
+            out.push('\n');
+            LibExpect { stdout: out, success: true, why: "library returned a value".into() }
+        }
+        Outcome::Err(_) => LibExpect { stdout: out, success: false, why: "library returned an error".into() },
+        Outcome::Panic(m, l) => LibExpect { stdout: out, success: false, why: format!("library panicked: {} at {}", m, l) },
+    }
+}
+
+pub fn rule_texts(thorough: bool) -> Vec<&'static str> {
+    let mut v = vec![
+        r#"{"var":""}"#, r#"{"var":"a"}"#, r#"{"var":["a.b",7]}"#, r#"{"==":[{"var":"a"},1]}"#, r#"{"+":[{"var":"a"},1.5]}"#,
+        r#"{"cat":["x",{"var":""}]}"#, r#"{"if":[{"var":"a"},"yes","no"]}"#, r#"{"map":[{"var":""},{"*":[{"var":""},2]}]}"#,
+        r#"{"log":{"var":""}}"#, r#"{"cat":[{"log":"first"},{"log":"second"}]}"#, r#"{"and":[{"log":"seen"},{"+":["x"]}]}"#,
+        r#"{"+":["x"]}"#, r#"{"==":[]}"#, r#"{"substr":[{"var":""},-2]}"#, r#"{"missing":["a","b"]}"#, r#"{"merge":[{"var":""},[null]]}"#,
+        r#"{"in":[{"var":""},[-1,"é"]]}"#, "1", "-1", "-1.5e3", r#""-x""#, r#""""#, "null", "true", "[1,{\"var\":\"a\"}]", "{}", r#"{"a":1,"b":2}"#,
+        r#"  {"var" : "" }  "#, "\n{\"!\":[{\"var\":\"\"}]}\n", r#"{"var":"é"}"#, r#"{"cat":["\u00e9\ud83d\ude00",{"var":""}]}"#,
+        r#"{"reduce":[{"var":""},{"+":[{"var":"current"},{"var":"accumulator"}]},0]}"#,
+        // invalid texts
+        "", " ", "{", r#"{"var":"#, r#"{"var":""} {"var":""}"#, "NaN", "'a'", r#"{'var':''}"#, "[1,]", "01", "-", "--", "undefined",
+    ];
+    if thorough {
+        v.extend([r#"{"max":[{"var":""},3]}"#, r#"{"some":[{"var":""},{"var":""}]}"#, r#"{"-":{"var":""}}"#, r#"{"?:":[{"var":""},1,2]}"#, "1e400", "-0", "-0.0", "[[[[[[[[[[1]]]]]]]]]]", "\u{feff}1", "1 2", "tru", "\"unterminated"]);
+    }
+    v
+}
+
+pub fn data_texts(thorough: bool) -> Vec<&'static str> {
+    let mut v = vec![
+        "null", "1", "-1", "-2.5", "0", r#""str""#, r#""é😀""#, "[1,2,3]", "[]", r#"{"a":1}"#, r#"{"a":{"b":2},"é":"x"}"#, r#"{"a":0}"#, "true",
+        r#" {"a" : [1, 2] } "#, "[-1]", r#""-1""#, r#"[1,"2",[3]]"#,
+        // invalid
+        "", "{", "nul", "'x'", "1 2", "[1,", "-",
+    ];
+    if thorough {
+        v.extend(["-1e2", "-0", "1e999", "-9223372036854775809", "18446744073709551616", "\"\\ud800\"", "{\"a\":1,}", "\n\n3\n"]);
+    }
+    v
+}
+
+fn nested_text(depth: usize) -> String {
+    format!("{}1{}", "[".repeat(depth), "]".repeat(depth))
+}
+
+fn judge_cli(ctx: &mut Ctx, sub: &str, kind: &str, args: Vec<String>, stdin: Option<&str>, exp: &LibExpect, strict_stdout: bool) -> CliObs {
+    let case = json!({"bin": kind, "argv": args, "stdin": stdin});
+    ctx.tick_external(&case);
+    let o = run_cli(kind, &args, stdin);
+    ctx.leaves += 1;
+    let class = format!("exit:{}", o.code.map(|c| c.to_string()).unwrap_or_else(|| format!("signal{}", o.signal.unwrap_or(0))));
+    ctx.note_outcome(sub, class);
+    ctx.nontrivial.insert(crate::ctx::hash_str(&case.to_string()));
+    let mut bad: Option<String> = None;
+    if o.signal.is_some() || o.stderr.contains("panicked") || !(o.code == Some(0) || o.code == Some(1)) {
+        bad = Some(format!("the process must end with exit status 0 or 1 and no panic ({})", exp.why));
+    } else if strict_stdout {
+        if exp.success {
+            if o.code != Some(0) || o.stdout != exp.stdout {
+                bad = Some(format!("exit 0 and stdout {:?} ({})", exp.stdout, exp.why));
+            }
+        } else if o.code == Some(0) || o.stdout != exp.stdout {
+            bad = Some(format!("non-zero exit and stdout {:?} - no result line ({})", exp.stdout, exp.why));
+        }
+    }
+    if let Some(e) = bad {
+        let tail: String = o.stderr.chars().take(200).collect();
+        ctx.fail(sub, case.clone(), e, format!("exit {:?} signal {:?} stdout {:?} stderr {:?}", o.code, o.signal, o.stdout, tail), None);
+    }
+    ctx.sample(|| json!({"case": case, "exit": o.code, "stdout": o.stdout}));
+    o
+}
+
+/// C18: the jsonlogic command is a faithful, chainable wrapper of the library.
+pub fn c18(ctx: &mut Ctx) {
+    let thorough = ctx.tier_thorough;
+    let kinds: Vec<&str> = if thorough { vec!["debug", "release"] } else { vec!["debug"] };
+    let rules = rule_texts(thorough);
+    let datas = data_texts(thorough);
+    for kind in &kinds {
+        for r in &rules {
+            for d in &datas {
+                if !ctx.mine() {
+                    continue;
+                }
+                let exp = lib_expect(r, d);
+                // a bare "-" as data argument means stdin, so that text cannot be delivered as an argument
+                if *d != "-" {
+                    ctx.edge();
+                    judge_cli(ctx, "data-as-argument", kind, vec![r.to_string(), d.to_string()], None, &exp, true);
+                    ctx.edge();
+                    judge_cli(ctx, "data-as-argument+junk-stdin", kind, vec![r.to_string(), d.to_string()], Some("{{{ junk"), &exp, true);
+                }
+                ctx.edge();
+                judge_cli(ctx, "stdin-no-argument", kind, vec![r.to_string()], Some(d), &exp, true);
+                ctx.edge();
+                judge_cli(ctx, "stdin-dash", kind, vec![r.to_string(), "-".to_string()], Some(d), &exp, true);
+            }
+        }
+        // nesting at the parser's limit, both as rule and as data
+        for depth in [126usize, 127, 128, 129, 200] {
+            if !ctx.mine() {
+                continue;
+            }
+            let t = nested_text(depth);
+            let exp = lib_expect(&t, "null");
+            judge_cli(ctx, "deep-rule", kind, vec![t.clone(), "null".into()], None, &exp, true);
+            let exp = lib_expect(r#"{"var":""}"#, &t);
+            judge_cli(ctx, "deep-data-stdin", kind, vec![r#"{"var":""}"#.into()], Some(&t), &exp, true);
+        }
+        // chaining: jsonlogic r2 < <(jsonlogic r1 d)
+        let valid_rules: Vec<&str> = rules.iter().filter(|r| serde_json::from_str::<Value>(r).is_ok() && !r.contains("log")).cloned().collect();
+        let chain_data: Vec<&str> = datas.iter().filter(|d| serde_json::from_str::<Value>(d).is_ok()).take(if thorough { 12 } else { 8 }).cloned().collect();
+        for r1 in &valid_rules {
+            for r2 in valid_rules.iter().take(if thorough { 40 } else { 20 }) {
+                if !ctx.mine() {
+                    continue;
+                }
+                for d in &chain_data {
+                    ctx.edge();
+                    let e1 = lib_expect(r1, d);
+                    let o1 = judge_cli(ctx, "chain:first", kind, vec![r1.to_string(), d.to_string()], None, &e1, true);
+                    // whatever the first really printed is the stdin of the second, which must compute
+                    // apply(r2, parse(that output)) - or fail if the first printed nothing
+                    let e2 = lib_expect(r2, &o1.stdout);
+                    judge_cli(ctx, "chain:second", kind, vec![r2.to_string()], Some(&o1.stdout), &e2, true);
+                }
+            }
+        }
+    }
+}
+
+/// C01 (f): the process boundary never crashes. Extremes through the CLI.
+pub fn c01_cli(ctx: &mut Ctx) {
+    use crate::alphabet as al;
+    use crate::refmodel::{self, OPS};
+    let thorough = ctx.tier_thorough;
+    let kinds: Vec<&str> = if thorough { vec!["debug", "release"] } else { vec!["debug"] };
+    let x: Vec<Value> = crate::spaces::c01::xs(false).into_iter().filter(|v| v.to_string().len() < 4000 && !al::is_operation_shaped(v)).collect();
+    for kind in &kinds {
+        for k in OPS {
+            for n in 1..=2usize {
+                if !refmodel::arity_ok(k, n) {
+                    continue;
+                }
+                for t in al::tuples(&x, n) {
+                    if !ctx.mine() {
+                        continue;
+                    }
+                    // NUL cannot be passed in argv; deliver the data on stdin and keep the rule NUL-free
+                    let rule = al::op(k, t).to_string();
+                    if rule.contains("\\u0000") {
+                        continue;
+                    }
+                    let exp = lib_expect(&rule, r#"{"a":[1,"x"]}"#);
+                    judge_cli(ctx, "cli:extremes", kind, vec![rule], Some(r#"{"a":[1,"x"]}"#), &exp, false);
+                }
+            }
+        }
+        // extremes as data / index
+        for a in &x {
+            if !ctx.mine() {
+                continue;
+            }
+            for b in &x {
+                let rule = json!({"var": [b]}).to_string();
+                if rule.contains("\\u0000") {
+                    continue;
+                }
+                let d = a.to_string();
+                let exp = lib_expect(&rule, &d);
+                judge_cli(ctx, "cli:extremes-var", kind, vec![rule], Some(&d), &exp, false);
+                let rule = json!({"substr": ["héllo", b, b]}).to_string();
+                let exp = lib_expect(&rule, &d);
+                judge_cli(ctx, "cli:extremes-substr", kind, vec![rule, d.clone()], None, &exp, false);
+            }
+        }
+        // deep chains and deep data
+        if ctx.mine() {
+            for depth in [63usize, 64, 126, 127, 128, 129] {
+                let t = format!("{}{}{}", r#"{"!":"#.repeat(depth), "1", "}".repeat(depth));
+                let exp = lib_expect(&t, "null");
+                judge_cli(ctx, "cli:deep-chain", kind, vec![t, "null".into()], None, &exp, false);
+                let t = format!("{}{}{}", r#"{"cat":["a","#.repeat(depth), "1", "]}".repeat(depth));
+                let exp = lib_expect(&t, "null");
+                judge_cli(ctx, "cli:deep-chain", kind, vec![t, "null".into()], None, &exp, false);
+                let t = nested_text(depth);
+                let exp = lib_expect(r#"{"cat":[{"var":""}]}"#, &t);
+                judge_cli(ctx, "cli:deep-data", kind, vec![r#"{"cat":[{"var":""}]}"#.into()], Some(&t), &exp, false);
+            }
+            // no arguments at all, too many arguments, options
+            for args in [vec![], vec!["1".to_string(), "2".to_string(), "3".to_string()], vec!["--help".to_string()], vec!["-V".to_string()], vec!["--nope".to_string()]] {
+                let exp = LibExpect { stdout: String::new(), success: false, why: "usage".into() };
+                judge_cli(ctx, "cli:usage", kind, args, Some(""), &exp, false);
+            }
+        }
+    }
+}
+
+// ---------------------------------------------------------------------------------
+// Python
+
+/// Run the Python driver for `mode` (c19 | c01) and fold its result into ctx.
+pub fn python(ctx: &mut Ctx, mode: &str) {
+    let thorough = ctx.tier_thorough;
+    let kinds: Vec<&str> = if thorough { vec!["debug", "release"] } else { vec!["debug"] };
+    for kind in kinds {
+        let out = std::env::temp_dir().join(format!("jlmc-py-{}-{}-{}.json", std::process::id(), ctx.shard, kind));
+        let _ = std::fs::remove_file(&out);
+        let driver = crate::driver::root().join("pydriver/driver.py");
+        let me = std::env::current_exe().unwrap();
+        let case = json!({"python_driver": mode, "kind": kind, "shard": ctx.shard});
+        ctx.tick_external(&case);
+        let st = Command::new("python3")
+            .arg(&driver)
+            .arg(mode)
+            .arg(pypkg(kind))
+            .arg(&me)
+            .arg(ctx.shard.to_string())
+            .arg(ctx.nshards.to_string())
+            .arg(if thorough { "thorough" } else { "quick" })
+            .arg(&out)
+            .env_remove("RUST_BACKTRACE")
+            .env("PYTHONDONTWRITEBYTECODE", "1")
+            .stdin(Stdio::null())
+            .stdout(Stdio::null())
+            .stderr(Stdio::piped())
+            .output();
+        let (ok, stderr) = match &st {
+            Ok(o) => (o.status.success(), String::from_utf8_lossy(&o.stderr).into_owned()),
+            Err(e) => (false, e.to_string()),
+        };
+        let res: Option<Value> = std::fs::read_to_string(&out).ok().and_then(|t| serde_json::from_str(&t).ok());
+        let _ = std::fs::remove_file(&out);
+        match res {
+            Some(r) if ok => {
+                ctx.leaves += r["leaves"].as_u64().unwrap_or(0);
+                ctx.evaluations += r["evaluations"].as_u64().unwrap_or(0);
+                ctx.states += r["states"].as_u64().unwrap_or(0);
+                ctx.transitions += r["transitions"].as_u64().unwrap_or(0);
+                if let Some(m) = r["outcomes"].as_object() {
+                    for (k, n) in m {
+                        *ctx.outcomes.entry(k.clone()).or_insert(0) += n.as_u64().unwrap_or(0);
+                    }
+                }
+                if let Some(m) = r["subspaces"].as_object() {
+                    for (k, n) in m {
+                        *ctx.subspaces.entry(format!("py:{}:{}", kind, k)).or_insert(0) += n.as_u64().unwrap_or(0);
+                    }
+                }
+                if let Some(hs) = r["hashes"].as_array() {
+                    for h in hs {
+                        if let Some(s) = h.as_str() {
+                            ctx.nontrivial.insert(crate::ctx::hash_str(s));
+                        }
+                    }
+                }
+                if let Some(vs) = r["violations"].as_array() {
+                    for v in vs {
+                        ctx.fail(
+                            &format!("py:{}:{}", kind, v["sub"].as_str().unwrap_or("?")),
+                            v["case"].clone(),
+                            v["expected"].as_str().unwrap_or("?").to_string(),
+                            format!("PY {}", v["actual"].as_str().unwrap_or("?")),
+                            None,
+                        );
+                    }
+                }
+                let extra = r["violation_count"].as_u64().unwrap_or(0).saturating_sub(r["violations"].as_array().map(|a| a.len() as u64).unwrap_or(0));
+                ctx.violation_count += extra;
+                if let Some(ss) = r["samples"].as_array() {
+                    for s in ss.iter().take(3) {
+                        if ctx.samples.len() < crate::ctx::MAX_SAMPLES {
+                            ctx.samples.push(s.clone());
+                        }
+                    }
+                }
+            }
+            _ => {
+                // the interpreter died (a crash of the extension kills CPython) or the driver broke
+                let tail: String = stderr.chars().rev().take(600).collect::<String>().chars().rev().collect();
+                ctx.fail(
+                    &format!("py:{}:driver", kind),
+                    json!({"python_driver": mode, "kind": kind, "shard": ctx.shard, "nshards": ctx.nshards}),
+                    "the Python driver completes (no interpreter crash)".into(),
+                    format!("PY driver ended abnormally: {:?}; stderr tail: {}", st.as_ref().map(|o| o.status.to_string()).unwrap_or_default(), tail),
+                    None,
+                );
+            }
+        }
+    }
+}
+
+/// Line protocol used by the Python driver: one JSON object per line
+/// {"rule": <text>, "data": <text>} -> {"ok": <text>} | {"err": true} | {"bad_json": true}
+pub fn oracle_loop() -> i32 {
+    exec::install_panic_hook();
+    let saved = exec::capture_stdout();
+    let stdin = std::io::stdin();
+    let mut out = unsafe {
+        use std::os::unix::io::FromRawFd;
+        std::fs::File::from_raw_fd(saved)
+    };
+    for line in stdin.lock().lines() {
+        let line = match line {
+            Ok(l) => l,
+            Err(_) => break,
+        };
+        let req: Value = match serde_json::from_str(&line) {
+            Ok(v) => v,
+            Err(_) => {
+                let _ = writeln!(out, "{}", json!({"protocol_error": true}));
+                continue;
+            }
+        };
+        let (rt, dt) = (req["rule"].as_str().unwrap_or(""), req["data"].as_str().unwrap_or(""));
+        let resp = match (serde_json::from_str::<Value>(rt), serde_json::from_str::<Value>(dt)) {
+            (Ok(r), Ok(d)) => {
+                let o = exec::apply(&r, &d);
+                match o.out {
+                    Outcome::Ok(v) => json!({"ok": v.to_string(), "log": o.log}),
+                    Outcome::Err(_) => json!({"err": true, "log": o.log}),
+                    Outcome::Panic(m, l) => json!({"panic": format!("{} at {}", m, l)}),
+                }
+            }
+            _ => json!({"bad_json": true}),
+        };
+        let _ = writeln!(out, "{}", resp);
+        let _ = out.flush();
+    }
+    0
+}
+
+/// Replay of a recorded CLI case.
+pub fn replay_cli(rec: &Value) -> i32 {
+    let case = &rec["case"];
+    let kind = case["bin"].as_str().unwrap_or("debug");
+    let args: Vec<String> = case["argv"].as_array().map(|a| a.iter().map(|x| x.as_str().unwrap_or("").to_string()).collect()).unwrap_or_default();
+    let stdin = case["stdin"].as_str();
+    let o = run_cli(kind, &args, stdin);
+    println!("argv     : {:?}", args);
+    println!("stdin    : {:?}", stdin);
+    println!("exit     : {:?} signal {:?}", o.code, o.signal);
+    println!("stdout   : {:?}", o.stdout);
+    println!("stderr   : {:?}", o.stderr.chars().take(300).collect::<String>());
+    println!("recorded : expected {} / actual {}", rec["expected"], rec["actual"]);
+    2
+}
